@@ -153,6 +153,42 @@ func Run(p Property, opt Options) int {
 		outs = runInProcess(p, cases, opt)
 	}
 
+	// ---- confirmation: load-sensitive verdicts (C09 CPU time) are re-executed alone,
+	// serially, before they count; a verdict that does not reproduce is inconclusive
+	if cf, ok := p.(Confirmer); ok {
+		confirm := func(r *Result) {
+			if r.V != Violated || !cf.NeedsConfirm(*r) || len(r.Replay) == 0 {
+				return
+			}
+			d, err := p.Decode(r.Replay)
+			if err != nil {
+				return
+			}
+			var again Result
+			if iso, ok := p.(Isolated); ok && iso.Isolated() {
+				again = runIsolated(p, []any{d}, Options{Tier: opt.Tier, Seed: opt.Seed, Workers: 1})[0].res
+			} else {
+				again = SafeExec(p, d)
+			}
+			if again.V == Violated {
+				again.Msg = "(confirmed alone) " + again.Msg
+				keep := r.Replay
+				feat, cells, sub, more := r.Feat, r.Cells, r.Sub, r.More
+				*r = again
+				r.Replay, r.Feat, r.Cells, r.Sub, r.More = keep, feat, cells, sub, more
+				return
+			}
+			fmt.Fprintf(os.Stderr, "[%s] a %s verdict did not reproduce when the case was run alone: inconclusive\n", id, r.Class)
+			r.V, r.Msg = Inconclusive, "not reproduced when run alone: "+r.Msg
+		}
+		for i := range outs {
+			for j := range outs[i].res.More {
+				confirm(&outs[i].res.More[j])
+			}
+			confirm(&outs[i].res)
+		}
+	}
+
 	// ---- merge in case-index order
 	ev := newEvidence(id, opt)
 	known := map[string]*knownHit{}
